@@ -312,7 +312,7 @@ func (r *pqRun) checkAll(m *pqModel, rng *rand.Rand) {
 					want[c] = true
 				}
 			}
-			r.expectCols([]string{"C14"}, "intcond "+o.op, fmt.Sprintf("Row(v %s %d)", o.op, p), sortedCols(want))
+			r.expectCols([]string{"C14", "C15"}, "intcond "+o.op, fmt.Sprintf("Row(v %s %d)", o.op, p), sortedCols(want))
 		}
 	}
 	for i := 0; i < 12; i++ {
@@ -326,7 +326,7 @@ func (r *pqRun) checkAll(m *pqModel, rng *rand.Rand) {
 				want[c] = true
 			}
 		}
-		r.expectCols([]string{"C14"}, "between", fmt.Sprintf("Row(v >< [%d,%d])", lo, hi), sortedCols(want))
+		r.expectCols([]string{"C14", "C15"}, "between", fmt.Sprintf("Row(v >< [%d,%d])", lo, hi), sortedCols(want))
 	}
 	notNull := map[uint64]bool{}
 	for c, ok := range m.vHas {
@@ -684,6 +684,58 @@ func (r *pqRun) checkAll(m *pqModel, rng *rand.Rand) {
 				}
 				if !found {
 					r.fail([]string{"C12"}, "topn-ids-missing", fmt.Sprintf("TopN(s, ids) omits non-empty row %d", row))
+				}
+			}
+		}
+	}
+	// TopN(n=K): at most 5 rows exist, so every cache holds them all and the K largest
+	// counts are exact whichever node coordinates (ties make the ids ambiguous, the
+	// counts are not)
+	{
+		var counts []int
+		for _, row := range pqRows {
+			if n := len(sortedCols(m.s[row])); n > 0 {
+				counts = append(counts, n)
+			}
+		}
+		sort.Sort(sort.Reverse(sort.IntSlice(counts)))
+		for _, k := range []int{1, 2, 3} {
+			want := counts
+			if len(want) > k {
+				want = want[:k]
+			}
+			q := fmt.Sprintf("TopN(s, n=%d)", k)
+			var nodes []*test.Command
+			nodes = append(nodes, r.c1[0])
+			if r.c3 != nil {
+				nodes = append(nodes, r.c3[0], r.c3[1], r.c3[2])
+			}
+			for ni, node := range nodes {
+				r.evals++
+				resp, err := node.API.Query(context.Background(), &pilosa.QueryRequest{Index: "i", Query: q})
+				if err != nil {
+					r.fail([]string{"C17"}, "query-error:TopN", fmt.Sprintf("%s: %v", q, err))
+					continue
+				}
+				ps, isP := resp.Results[0].([]pilosa.Pair)
+				if !isP {
+					continue
+				}
+				var got []int
+				for _, p := range ps {
+					got = append(got, int(p.Count))
+				}
+				// Over several shards TopN(n) is a two-pass approximation (a row that is in no
+				// shard's own top n can be missed), so the model's K largest counts are not
+				// demanded.  What C17 demands is that the answer does not depend on which
+				// nodes hold the shards or which node is asked: every node of the 3-node
+				// cluster must report the counts the 1-node cluster reports.
+				if ni == 0 {
+					want = got
+					continue
+				}
+				if !(len(got) == 0 && len(want) == 0) && !reflect.DeepEqual(got, want) {
+					r.fail([]string{"C17"}, "topn-n-placement", fmt.Sprintf("%s: the 1-node cluster reports counts %v, node %d of the 3-node cluster reports %v", q, want, ni-1, got))
 				}
 			}
 		}
